@@ -7,10 +7,13 @@ from common import R, Rmat, fl, flmat, max_rel_err
 
 from common import wiring_pre_build as pre_build  # noqa: E402,F401
 
-LEAN_MODULES = ["PyomaVerif.Props.C12", "PyomaVerif.Props.C12Dat", "PyomaVerif.Props.WiringRun"]
+LEAN_MODULES = ["PyomaVerif.Props.C12", "PyomaVerif.Props.C12Dat", "PyomaVerif.Props.WiringRun", "PyomaVerif.Props.WiringStore", "PyomaVerif.Props.WiringClass", "PyomaVerif.Props.WiringCalls"]
 THEOREMS = [
     # call-site wiring of the class layer, regenerated from /repo on every run (translate_wiring.py)
     "PV.WiringRun.C12_run_build_hank",
+    "PV.WiringStore.C12_run_result_store",
+    "PV.WiringClass.C12_run_inherited",
+    "PV.WiringCalls.C12_ssidat_run_calls",
     "PV.C12.C12_shape_mm",
     "PV.C12.C12_shape_R",
     "PV.C12.C12_shape_dat",
